@@ -8,6 +8,7 @@ package main
 
 import (
 	"fmt"
+	"os"
 	"sort"
 	"strconv"
 	"strings"
@@ -223,6 +224,46 @@ var byName = func() map[string]*entry {
 	return m
 }()
 
+// invalidPresent is the semantic clause "an INVALID resource is treated as ABSENT": for every key whose
+// current datastore value is invalid by construction (universe ground truth, not the filter's verdict) the
+// accumulated dataplane state must hold no object for it.  Returns the offending "<key name> -> <object>" pairs.
+func invalidPresent(s *runState) []string {
+	var bad []string
+	for name, v := range s.cur {
+		e := byName[name]
+		if v == 0 || !e.invalid[v] {
+			continue
+		}
+		switch k := e.key.(type) {
+		case model.WorkloadEndpointKey:
+			obj := "WorkloadEndpoint/" + canon(&proto.WorkloadEndpointID{OrchestratorId: k.OrchestratorID, WorkloadId: k.WorkloadID, EndpointId: k.EndpointID})
+			if _, ok := s.g.dp.objs[obj]; ok {
+				bad = append(bad, name+" -> "+obj)
+			}
+		case model.HostEndpointKey:
+			obj := "HostEndpoint/" + canon(&proto.HostEndpointID{EndpointId: k.EndpointID})
+			if _, ok := s.g.dp.objs[obj]; ok {
+				bad = append(bad, name+" -> "+obj)
+			}
+		case model.PolicyKey:
+			for obj := range s.g.dp.objs {
+				if strings.HasPrefix(obj, "ActivePolicy/") && strings.Contains(obj, "name:\""+k.Name+"\"") {
+					bad = append(bad, name+" -> "+obj)
+				}
+			}
+		}
+	}
+	sort.Strings(bad)
+	return bad
+}
+
+func checkInvalidAbsent(h *rt.H, s *runState) {
+	if bad := invalidPresent(s); len(bad) > 0 {
+		h.OracleFail("invalid-not-absent", "a resource whose current datastore value is INVALID is present in the dataplane state (it must be treated as absent): "+strings.Join(bad, "; "),
+			map[string]any{"config": s.cv, "history": append([]string(nil), s.history...), "final_state": s.cur, "present": bad})
+	}
+}
+
 func exec(h *rt.H, s *runState, op string) string {
 	w := strings.Fields(op)
 	switch w[0] {
@@ -256,6 +297,7 @@ func exec(h *rt.H, s *runState, op string) string {
 		return "ok"
 	case "flush":
 		s.g.flush()
+		checkInvalidAbsent(h, s)
 		return "ok " + s.g.dp.proj.render(s.g.dp)
 	case "dump":
 		s.g.flush()
@@ -266,6 +308,7 @@ func exec(h *rt.H, s *runState, op string) string {
 			return "skip"
 		}
 		s.g.flush()
+		checkInvalidAbsent(h, s)
 		fresh := newGraph(s.cv)
 		names := make([]string, 0, len(s.cur))
 		for n, v := range s.cur {
@@ -445,6 +488,14 @@ func main() {
 	h := rt.New()
 	defer h.Close()
 	precompute()
+	if os.Getenv("C01_VERDICTS") != "" {
+		// debugging aid: ground truth vs the real filter's verdict for every variant
+		for _, e := range universe {
+			for v := 1; v < len(e.variants); v++ {
+				fmt.Fprintf(os.Stderr, "%s#%d marked-invalid=%v filter-passes=%v\n", e.name, v, e.invalid[v], passesValidation(e, v))
+			}
+		}
+	}
 	h.Rule = fmt.Sprintf("case = one Felix config (vxlan/ipip/bpf/route source) + a history of 5..49 KV updates over a focused sub-universe of %d keys "+
 		"(2 local + 2 remote WEPs, 2 HEPs, 3 profiles (rules+labels), 3 tiers, 4 policies incl. staged/untracked/preDNAT, 2 network sets, 2 pools, 2 blocks, 3 nodes, host IP, VTEP config; "+
 		"each with 2..6 value variants incl. INVALID ones, deletes, duplicates, reverts), in-sync at a random point, flush strategy in {every update, random, batches, only at end}; "+
